@@ -32,6 +32,8 @@ ALIASES = [
     ("$[?@.a == nil]", "$[?@.a == null]"), ("$[?@.a == none]", "$[?@.a == null]"), ("$[?@.a == Nil]", "$[?@.a == null]"), ("$[?@.a == None]", "$[?@.a == null]"),
     ("$[?@.a == Null]", "$[?@.a == null]"), ("$[?@.a == True]", "$[?@.a == true]"), ("$[?@.a == False]", "$[?@.a == false]"),
     ("$[?@.a == missing]", "$[?@.a == undefined]"), ("$[?@.a != missing]", "$[?@.a != undefined]"),     ("$..[?@.a and @.b]", "$..[?@.a && @.b]"), ("$[?@.xs[?@ == 1 or @ == 2]]", "$[?@.xs[?@ == 1 || @ == 2]]"), ("$[0, ?not @.a]", "$[0, ?!@.a]"),
+    ("a | b", "$.a | $.b"), ("a & [0]", "$.a & $[0]"), ("a[*] | b[*] & c[*]", "$.a[*] | $.b[*] & $.c[*]"), ("$[é]", "$['é']"),
+    ("é.b", "$.é.b"),
     ("$[?not(@.a)]", "$[?!(@.a)]"), ("$[?@.a and(@.b)]", "$[?@.a &&(@.b)]"), ("$[?(@.a)or(@.b)]", "$[?(@.a)||(@.b)]"), ("$[?not(@.a == 1)and not(@.b)]", "$[?!(@.a == 1)&&!(@.b)]"),
     ("$[?@.a==nil]", "$[?@.a==null]"), ("$[?nil==@.a]", "$[?null==@.a]"), ("$[?@.a in [True,None]]", "$[?@.a in [true,null]]"), ("$[?count(@.*) == 1 and not(match(@.s, 'a'))]", "$[?count(@.*) == 1 && !(match(@.s, 'a'))]"),
 ]
@@ -82,6 +84,9 @@ def gen(ctx):
     for l, r in MEMBER:
         for d in docs:
             cases.append({"kind": "member", "text": f"$[?{l} in {r}]", "std": f"$[?{r} contains {l}]", "doc": d, "ctx": {}})
+    for q in ("^[?@ == 5]", "^[0]", "^[?@.a]", "^[*]", "^..*"):
+        for d in (5, "abc", None, True, 1.5, [], {}):
+            cases.append({"kind": "fake", "text": q, "doc": d, "ctx": {}})
     for t in qpool.EXTENSION:
         for d in (docs if ctx.tier != "quick" else ctx.rng.sample(docs, 4)):
             cases.append({"kind": "pool", "text": t, "doc": d, "ctx": ctx.rng.choice(qpool.CONTEXTS)})
